@@ -111,7 +111,9 @@ var plans = map[string]*Plan{
 		Assumptions: rengAssume,
 		Floor:       map[string]int64{"revision_samples": 300, "concurrent_runs": 5},
 		Jobs: func(tier string) []Job {
-			return jobs("reng", 16, tierN(tier, 6, 100), "", time.Duration(tierN(tier, 10, 80))*time.Minute)
+			js := jobs("reng", 12, tierN(tier, 8, 130), "", time.Duration(tierN(tier, 10, 80))*time.Minute)
+			// crash points of the write path (E6): the counter after process death at any syscall boundary
+			return append(js, jobs("crashpt", 4, tierN(tier, 1, 6), "tier="+tier, time.Duration(tierN(tier, 10, 80))*time.Minute)...)
 		},
 		CrashSig: rengCrash("C10"),
 	},
@@ -168,6 +170,20 @@ var plans = map[string]*Plan{
 	"C09": ctlPlan("C09", 32, 1250, map[string]int64{"registrations": 500, "elections_checked": 100},
 		"bootstrap sequences for RF 1..5: registration requests in every order for <=4 replicas (enumerated across cases) and sampled above, with repetitions, revision vectors with ties, replicas registering as rebuilding or dirty, replicas that die after registering, failing start signals, Start attempts by non-elected replicas, single- and multi-address Start; ground truth = the harness's knowledge of each replica's revision, state and liveness; "+
 			"no start signal before a majority registered; a freshly elected target has the highest revision among registered, reachable, non-rebuilding replicas; never a rebuilding one; only the elected one can start; lower-revision replicas named in Start are not RW and never serve reads; non-trivial/distinct as C03"),
+	"C08": {
+		Level: "fault_enumeration",
+		Rule: "pre-states built by generated histories of 0-20 operations (chain length 1-6, user/auto/removed snapshots, orphans after reverts); for each operation (aligned and read-modify-write writes, user/auto snapshot, removal via prepare+fold+remove, mark-removed, revert, resize, set-checkpoint, set-rebuilding, clone-info, close, open) the file-system calls of the victim's main thread between two marker calls are recorded with strace; then (1) the process is killed before every state-changing call, (2) the durability discipline is linted on the trace, (3) every call that can fail is made to fail once with ENOSPC (thorough: also EIO); a checker process reopens the directory with the real code (with and without preload) and classifies it against the before/after models incl. every retained user snapshot; " +
+			"non-trivial = an (operation, trace length, chain length) combination; distinct = number of different such combinations; exhaustive over the syscall boundaries of the sampled (pre-state, operation) pairs",
+		Assumptions: []string{
+			"process death, not power loss: the page cache survives the process, the durability clause is checked by linting the fsync discipline in the syscall trace",
+			"crash points are syscall boundaries of the operation's own (locked) thread; the asynchronous hole puncher is idle during the operation",
+			"on a reported failure either consistent state (before or after) is accepted; success requires the complete after-state",
+		},
+		Floor: map[string]int64{"crash_points": 100, "failing_call_injections": 100, "reference_traces": 10},
+		Jobs: func(tier string) []Job {
+			return jobs("crashpt", 16, tierN(tier, 1, 2), "tier="+tier, time.Duration(tierN(tier, 15, 120))*time.Minute)
+		},
+	},
 }
 
 func ctlPlan(id string, q, t int, floor map[string]int64, rule string) *Plan {
